@@ -59,7 +59,7 @@ func deepOfDepth(fn *ssa.Function, maxDepth int) *deepFn {
 		if n.depth >= maxDepth || len(d.nodes) > 80 {
 			return
 		}
-		for _, c := range callsIn(n.fn) {
+		for _, c := range ownCallsIn(n.fn) {
 			if _, isGo := c.(*ssa.Go); isGo {
 				continue
 			}
@@ -88,7 +88,7 @@ func deepOfDepth(fn *ssa.Function, maxDepth int) *deepFn {
 // each visits every instruction of the deep view.
 func (d *deepFn) each(f func(x dins)) {
 	for _, n := range d.nodes {
-		forEachInstr(n.fn, func(in ssa.Instruction) { f(dins{n, in}) })
+		forEachOwnInstr(n.fn, func(in ssa.Instruction) { f(dins{n, in}) })
 	}
 }
 
@@ -190,7 +190,7 @@ func renderLit(l Lit) string {
 // the) result of an inlinable helper are expanded into the literals of the helper's matching
 // return paths.
 func (d *deepFn) localPaths(n *dnode, in ssa.Instruction, ab func(string) string) ([]litPath, bool) {
-	paths, ok := reachingLits(n.fn, nil, in)
+	paths, ok := reachingLitsOwn(n.fn, nil, in)
 	out := []litPath{}
 	for _, p := range paths {
 		cur := []litPath{{}}
@@ -251,7 +251,7 @@ func (d *deepFn) returnPaths(n *dnode, call *ssa.Call, wantNil bool, ab func(str
 		return nil
 	}
 	var out []litPath
-	forEachInstr(child.fn, func(in ssa.Instruction) {
+	forEachOwnInstr(child.fn, func(in ssa.Instruction) {
 		ret, ok := in.(*ssa.Return)
 		if !ok || len(ret.Results) == 0 {
 			return
@@ -334,7 +334,7 @@ func allLitPathsContain(ps []litPath, subs ...string) bool {
 // alwaysRuns: the instruction executes whenever its own function runs to a return.
 func alwaysRuns(in ssa.Instruction) bool {
 	ok := true
-	forEachInstr(in.Parent(), func(x ssa.Instruction) {
+	forEachOwnInstr(in.Parent(), func(x ssa.Instruction) {
 		if ret, isRet := x.(*ssa.Return); isRet && !instrDominates(in, ret) {
 			ok = false
 		}
@@ -443,7 +443,7 @@ func runsOnSuccess(in ssa.Instruction) bool {
 		return false
 	}
 	ok := true
-	forEachInstr(fn, func(x ssa.Instruction) {
+	forEachOwnInstr(fn, func(x ssa.Instruction) {
 		ret, isRet := x.(*ssa.Return)
 		if !isRet || len(ret.Results) == 0 {
 			return
@@ -477,7 +477,7 @@ func isConstructorOfError(c *ssa.Call) bool {
 
 // underNilErrOf: every path to in passes the test "error result of call == nil".
 func underNilErrOf(in ssa.Instruction, call *ssa.Call) bool {
-	paths, ok := reachingLits(in.Parent(), nil, in)
+	paths, ok := reachingLitsOwn(in.Parent(), nil, in)
 	if !ok || len(paths) == 0 {
 		return false
 	}
@@ -500,4 +500,15 @@ func underNilErrOf(in ssa.Instruction, call *ssa.Call) bool {
 		}
 	}
 	return true
+}
+
+// find: the deep position of an instruction (the first node whose function holds it); an
+// instruction of a function outside the view is placed in the root.
+func (d *deepFn) find(in ssa.Instruction) dins {
+	for _, n := range d.nodes {
+		if n.fn == in.Parent() {
+			return dins{n, in}
+		}
+	}
+	return dins{d.root, in}
 }
